@@ -42,9 +42,9 @@ HEADER = (
 MODEL_TARGETS = ["Model/Mixup.vo", "Lib/FloatSelect.vo"]
 # Print Assumptions of the three IEEE-level theorems lists the stdlib axioms Flocq / Reals import
 ALLOWED_AXIOMS = ("ClassicalDedekindReals.", "FunctionalExtensionality.", "Classical_Prop.")
-SELECT_SAMPLE = 12
+SELECT_SAMPLE = 9
 SHARD = 200
-RULE = ("(feature entries: all-distinct float32 values 1e-45..1e8 traced by exact bit lookup; per call up to 12 "
+RULE = ("(feature entries: all-distinct float32 values 1e-45..1e8 traced by exact bit lookup; per call up to 9 "
         "entries, extreme magnitudes / zeros / subnormals first, are also checked bit for bit against Flocq's "
         "binary32 evaluation of mask*x + ~mask*x') one call -- or a sequence of 2-4 calls sharing in-place refreshed tensor objects (mi_scores, x, y) -- of "
         "feature_mixup (directly or through ExcelFormer.forward(mixup_encoded=True)) on a batch "
@@ -64,7 +64,7 @@ TRUSTED = [
     "mixup_entry_ieee_exact, mixup_entry_never_reads_other, rewritten_select_is_refuted -- the Coq standard library "
     "axioms it imports with Reals: ClassicalDedekindReals.sig_not_dec, ClassicalDedekindReals.sig_forall_dec, "
     "FunctionalExtensionality.functional_extensionality_dep, Classical_Prop.classic; torch's float32 kernel is tied "
-    "to Flocq's mask_select by the select32 correspondence on up to 12 entries per call (bit-exact incl. the sign "
+    "to Flocq's mask_select by the select32 correspondence on up to 9 entries per call (bit-exact incl. the sign "
     "of zeros)",
 ]
 ASSUMPTIONS = [
@@ -78,10 +78,53 @@ ASSUMPTIONS = [
     "partner.masked_fill(keep, 0) + own * keep produces the other one: harmless rewrite C19_h5); inf / nan embeddings are outside the model and never generated "
     "(bool * inf = nan in the code)",
     "torch's float32 multiply / add are IEEE binary32 round-to-nearest-even as formalised by Flocq (checked per "
-    "run on up to 12 entries per call)",
+    "run on up to 9 entries per call)",
 ]
 
 TOL = Fr(2, 10 ** 6)
+
+# ERROR_PATHS -- every raise / assert / special-case branch / dtype cast / float comparison of the anchored code
+# (excelformer.py feature_mixup + the mixup_encoded part of ExcelFormer.forward), the generator kind that reaches it and
+# the oracle / correspondence key that notices a change.  "corr" = model-vs-implementation term of coq_term_one.
+#
+#  site (feature_mixup)                                   reached by                              noticed by
+#  ------------------------------------------------------ --------------------------------------- -----------------------
+#  assert num_classes > 0                                  not generated (num_classes >= 1 is the property's domain);
+#                                                          model: None                              --
+#  assert mixup_type in [None,'feature','hidden']          all three modes drawn (sanity)           mode-specific keys
+#  beta -> torch.tensor(beta, dtype=x.dtype)               beta in {0.001 .. 1000} (edge stream)    target-not-convex,
+#                                                                                                   raises:* (nan rates)
+#  Beta(beta,beta).sample((B,1)) in [0,1]                  every call; rates recovered as lambda    target-not-convex
+#  randperm(B)                                             B in 1..6, identity perms counted        two-partners,
+#                                                                                                   partner-differs
+#  assert x.ndim == 3                                      always rank 3 (domain)                   --
+#  feature: assert mi_scores is not None                   malformed stream (mi=None, 3 %)          corr (mixup_raises)
+#  feature: mi_scores.to(x.device)                         CPU only                                 --
+#  feature: rand(b,f) < shuffle_rates  (float compare)     all-kept / none-kept / partial rows      granularity:feature,
+#                                                          counted in stats                         lambda-not-mi-share
+#  feature: mi_scores / mi_scores.sum()  (NORMALISATION)   mi mass = 1 exactly, 1 +- {1e-5..1e-2},  lambda-not-mi-share,
+#                                                          far from 1, leading zero, single         target-not-distribution
+#                                                          non-zero, unsorted (gen_mi*, sanity)
+#  feature: sum == 0 -> nan targets, no raise              zero-sum stream (4 %)                    outside the quantifier;
+#                                                                                                   Props nan_target_iff..
+#  feature: F == 1 (sum over one column, unsqueeze(2))     F in 1..4 all drawn (sanity)             granularity, lambda-..
+#  hidden: rand(b,d) < rates, unsqueeze(1), lam = rates    hidden mode, D in 1..4                   granularity:hidden
+#  off: ones_like(x, bool), lam = ones                     mode None                                off-changed-features,
+#                                                                                                   off-changed-target
+#  mask * x + ~mask * x[idx]  (bool*float32 arithmetic)    float32 entries 1e-45..1e8, +-0,         foreign-value (bit
+#                                                          subnormals                               lookup), corr select32
+#  y[shuffled_idx]                                         every call                               partner-differs
+#  num_classes == 1: lam.squeeze(1); lam*y + (1-lam)*y'    scalar targets float32 / FLOAT64 / int64 target-not-convex,
+#     (type promotion of y: int -> float32, float64 stays) / INT32 / whole-valued floats             y-shape,          
+#                                                                                                   argument-modified
+#  else: F.one_hot(y, num_classes) (LongTensor only,       class targets int64; num_classes = 2,    target-not-distribution,
+#     raises on index >= num_classes or < 0)               B..B+2, 40 (top class / class 0 used);   corr (mixup_raises) for
+#                                                          malformed stream: index >= num_classes   the malformed stream
+#     int32 class targets: one_hot RAISES on the clean     NOT generated -- reported as a finding
+#     tree (pending_fixes/C17-C19-int32-class-labels.diff)
+#  ExcelFormer.forward: assert tf.y is not None,           forward entry (hooks), 12 % + multi      forward-out-shape and
+#     num_classes=self.out_channels, beta=self.beta,                                                all keys above
+#     mixup_type=self.mixup, getattr(tf,'mi_scores',None)
 
 
 # ------------------------------------------------------------------ generator
@@ -155,6 +198,29 @@ def gen_mi(rng, F):
     return [[m, sh] for m in mi]                    # dyadic, non-negative, positive sum
 
 
+MASS_DELTAS = [0, 1e-2, -1e-2, 1e-3, -1e-3, 5e-4, -5e-4, 1e-4, -1e-4, 1e-5, -1e-5]
+
+
+def gen_mi_mass(rng, F):
+    """float32 scores whose mass is 1 + delta for delta in MASS_DELTAS (stored normalised scores, slightly off):
+    lambda must still be the SHARE of the kept columns, never the raw sum"""
+    w = [rng.pick([0, 1, 1, 2, 3, 5, 8]) + rng.random() for _ in range(F)]
+    if rng.chance(0.2) and F >= 2:
+        w[rng.randrange(F)] = 0.0
+    tot = sum(w) or 1.0
+    delta = rng.pick(MASS_DELTAS)
+    if delta == 0 and rng.chance(0.6):
+        # exactly one, in dyadic pieces
+        parts = {1: [1], 2: [0.5, 0.5], 3: [0.5, 0.25, 0.25], 4: [0.5, 0.25, 0.125, 0.125]}[F]
+        rng.shuffle(parts)
+        vals = parts
+    else:
+        vals = [f32(v / tot * (1 + delta)) for v in w]
+        if sum(vals) <= 0:
+            vals = [f32((1 + delta) / F)] * F
+    return [[Fr(v).numerator, Fr(v).denominator] for v in vals]
+
+
 def gen_mi_boundary(rng, F):
     """mutual-information vectors at the edges: a leading zero, a single non-zero score, ascending (i.e. not sorted
     as MutualInformationSort leaves them), all equal"""
@@ -187,14 +253,27 @@ def gen_case(rng, tier, entry=None, clean=False):
     if entry == "forward" and tk == "scalar_i":
         tk = "scalar_f"
     nc, y = gen_y(rng, tk, B)
+    if tk == "class" and rng.chance(0.15):
+        # num_classes boundaries: 2 (targets repeat for B > 2), many classes; class 0 and the top class both used
+        nc = rng.pick([2, 40])
+        y = [rng.pick([0, nc - 1]) if rng.chance(0.6) else rng.randrange(nc) for _ in range(B)]
     beta = rng.pick([0.5, 0.5, 1.0, 2.0, 0.25, 4.0, 0.1])
     mi = gen_mi(rng, F) if (mode == "feature" or rng.chance(0.3)) else None
+    if mi is not None and rng.chance(0.3):
+        mi = gen_mi_mass(rng, F)
     if edge:
         beta = rng.pick([0.01, 0.001, 0.05, 100.0, 1000.0, 0.5])
         if mi is not None and rng.chance(0.7):
             mi = gen_mi_boundary(rng, F)
     case = dict(entry=entry, seed=rng.randrange(1 << 30), B=B, F=F, D=D, mode=mode, num_classes=nc,
                 target=tk, y=y, beta=beta, mi=mi, x=x, val=gen_vals(rng, x))
+    # target dtype: scalar targets also as float64 / int32 (class indices must be int64: F.one_hot)
+    if tk == "scalar_f":
+        case["y_dtype"] = rng.pick(["float32", "float32", "float64"])
+        if rng.chance(0.15):
+            case["y"] = [[int(fr_of(v)), 1] for v in case["y"]]      # whole-valued float targets
+    elif tk == "scalar_i":
+        case["y_dtype"] = rng.pick(["int64", "int64", "int32"])
     # low rate, outside the quantifier: scores with a ZERO sum (all-nan target, no raise)
     if mode == "feature" and not clean and rng.chance(0.04):
         if F >= 2 and rng.chance(0.3):
@@ -270,7 +349,7 @@ def gen_multi(rng, tier):
 
 
 def generate(rng, tier):
-    n, m = (1000, 180) if tier == "quick" else (32000, 5000)
+    n, m = (900, 150) if tier == "quick" else (32000, 5000)
     return [gen_case(rng, tier) for _ in range(n)] + [gen_multi(rng, tier) for _ in range(m)]
 
 
@@ -281,8 +360,8 @@ def fr_of(v):
 
 def y_tensor(case):
     if case["target"] == "scalar_f":
-        return torch.tensor([float(fr_of(v)) for v in case["y"]], dtype=torch.float32)
-    return torch.tensor(case["y"], dtype=torch.long)
+        return torch.tensor([float(fr_of(v)) for v in case["y"]], dtype=getattr(torch, case.get("y_dtype", "float32")))
+    return torch.tensor(case["y"], dtype=getattr(torch, case.get("y_dtype", "int64")))
 
 
 def val_of(case, i):
@@ -825,7 +904,10 @@ def stats(cases, obss):
          "distinct_targets": 0, "rows_taking_every_entry_from_the_partner": 0,
          "rows_keeping_every_entry_but_mixing_the_target": 0, "calls_where_every_row_is_its_own_partner_B_ge_2": 0,
          "calls_with_a_single_row": 0, "mi_with_leading_zero": 0, "mi_with_single_nonzero": 0,
-         "mi_not_sorted_descending": 0, "beta_at_most_0.01": 0, "beta_at_least_100": 0}
+         "mi_not_sorted_descending": 0, "beta_at_most_0.01": 0, "beta_at_least_100": 0,
+         "mi_mass_exactly_one": 0, "mi_mass_within_1e-3_of_one_but_not_one": 0,
+         "mi_mass_within_1e-4_of_one_but_not_one": 0, "mi_mass_about_1e-2_off_one": 0, "mi_mass_far_from_one": 0,
+         "y_dtype": {}, "num_classes_2": 0, "num_classes_40": 0, "whole_valued_float_targets": 0}
     d["zero_sum_mi_cases"] = sum(1 for c, _ in flatten(cases, obss) if zero_sum_mi(c))
     def spread(c):
         vs = [abs(val_of(c, i)) for a in c["x"] for b in a for i in b if val_of(c, i) != 0]
@@ -868,6 +950,17 @@ def stats(cases, obss):
             d["mi_with_leading_zero"] += int(len(ms) >= 2 and ms[0] == 0)
             d["mi_with_single_nonzero"] += int(len(ms) >= 2 and sum(1 for m in ms if m != 0) == 1)
             d["mi_not_sorted_descending"] += int(ms != sorted(ms, reverse=True))
+            off = abs(sum(ms) - 1)
+            d["mi_mass_exactly_one"] += int(off == 0)
+            d["mi_mass_within_1e-3_of_one_but_not_one"] += int(0 < off <= Fr(11, 10000))
+            d["mi_mass_within_1e-4_of_one_but_not_one"] += int(0 < off <= Fr(11, 100000))
+            d["mi_mass_about_1e-2_off_one"] += int(Fr(5, 1000) < off <= Fr(2, 100))
+            d["mi_mass_far_from_one"] += int(off > Fr(1, 10))
+        yd = c.get("y_dtype", "float32" if c["target"] == "scalar_f" else "int64")
+        d["y_dtype"][yd] = d["y_dtype"].get(yd, 0) + 1
+        d["num_classes_2"] += int(c["target"] == "class" and c["num_classes"] == 2)
+        d["num_classes_40"] += int(c["target"] == "class" and c["num_classes"] == 40)
+        d["whole_valued_float_targets"] += int(c["target"] == "scalar_f" and all(v[1] == 1 for v in c["y"]))
         if c["mode"] is not None:
             d["beta_at_most_0.01"] += int(c["beta"] <= 0.01)
             d["beta_at_least_100"] += int(c["beta"] >= 100)
@@ -1065,9 +1158,15 @@ def sanity(cases, obss):
         probs.append("no call with zero / subnormal feature entries")
     for k in ("rows_taking_every_entry_from_the_partner", "rows_keeping_every_entry_but_mixing_the_target",
               "calls_where_every_row_is_its_own_partner_B_ge_2", "calls_with_a_single_row", "mi_with_leading_zero",
-              "mi_with_single_nonzero", "mi_not_sorted_descending", "beta_at_most_0.01", "beta_at_least_100"):
+              "mi_with_single_nonzero", "mi_not_sorted_descending", "beta_at_most_0.01", "beta_at_least_100",
+              "mi_mass_exactly_one", "mi_mass_within_1e-3_of_one_but_not_one",
+              "mi_mass_within_1e-4_of_one_but_not_one", "mi_mass_about_1e-2_off_one", "mi_mass_far_from_one",
+              "num_classes_2", "num_classes_40", "whole_valued_float_targets"):
         if d[k] == 0:
             probs.append(f"boundary never hit: {k} = 0")
+    for yd in ("float32", "float64", "int64", "int32"):
+        if d["y_dtype"].get(yd, 0) == 0:
+            probs.append(f"target dtype {yd} never drawn")
     if d["calls_on_kept_argument_objects"] == 0:
         probs.append("no repeated call on the untouched argument objects of the previous call")
     return probs
